@@ -585,9 +585,13 @@ func lonely(run *vk.Run) {
 	stranded := 0
 	for i := 0; i < n && stranded < 3; i++ {
 		it.Store(int64(i))
+		t0 := time.Now()
 		base := sentN.Load()
 		q.Add(pkt("A"))
-		for inSend.Load() == 0 && sentN.Load() == base {
+		for spins := 0; inSend.Load() == 0 && sentN.Load() == base; spins++ {
+			if spins&0xffff == 0xffff && time.Since(t0) > 500*time.Millisecond {
+				break // A itself is stranded: the verdict below reports it
+			}
 		}
 		spin(spins[(i*13+1)%4096] * 2)
 		q.Add(pkt("B"))
